@@ -210,6 +210,37 @@ def shard(ctx):
                     ctx.violation("%s:stderr-lines" % mode, "stderr differs across runs", case)
                 elif len(ctx.res.samples) < 3:
                     ctx.sample({"mode": mode, "argv": case["argv"], "runs": len(runs), "exit": list(codes)[0], "stdout_bytes": len(runs[0][1])})
+            # ---- what a run says about one data file does not depend on the data files evaluated before it in the same process
+            from . import c12
+            R = ["-r", os.path.join(sdir, "r1.guard"), "-r", os.path.join(sdir, "r2.guard")]
+            for fmt in ("json", "yaml", "junit", "sarif"):
+                tailf = ["--structured", "-S", "none", "-o", fmt]
+                try:
+                    code, out, err = run(["validate"] + R + ["-d", os.path.join(sdir, "d")] + tailf, None, {}, sdir, False)
+                    batch = units_of(fmt, out)
+                    alone = {}
+                    for j in range(len(docs)):
+                        c1, o1, e1 = run(["validate"] + R + ["-d", os.path.join(sdir, "d", "d%d.json" % j)] + tailf, None, {}, sdir, False)
+                        alone.update(units_of(fmt, o1) or {})
+                except subprocess.TimeoutExpired:
+                    ctx.inconclusive("timeout")
+                    continue
+                ctx.res.cases += 1
+                if batch is None:
+                    ctx.inconclusive("units-unparsable:" + fmt)
+                    continue
+                if not batch:
+                    ctx.res.counts["earlier-files:no-units"] += 1
+                    continue
+                ctx.res.counts["earlier_file_units_compared"] += len(batch)
+                bad = sorted(k for k in batch if k in alone and batch[k] != alone[k])
+                if bad:
+                    ctx.violation("earlier-files:%s" % fmt, "what `validate --structured -o %s` reports for %s depends on the data files evaluated before it: in the batch %s, alone %s" % (
+                        fmt, bad[0], str(batch[bad[0]])[:300], str(alone[bad[0]])[:300]),
+                        {"kind": "proc", "mode": "v-s-" + fmt, "argv": ["validate", "-r", "{S}/r1.guard", "-r", "{S}/r2.guard", "-d", "{S}/d"] + tailf, "rules": texts, "docs": docs, "files": snapshot(sdir),
+                         "earlier_files": True})
+                else:
+                    ctx.res.distinct.add(("earlier-files", fmt, len(batch)))
             # ---- within one process: same job 5x back-to-back, interleaved with an unrelated one
             payload = json.dumps({"rules": texts, "data": [json.dumps(d) for d in docs]})
             for argv in (["validate", "--payload", "--structured", "-S", "none", "-o", "json"], ["validate", "--payload", "-o", "yaml", "-S", "all"],
@@ -229,6 +260,20 @@ def shard(ctx):
                                   {"kind": "inproc", "argv": argv, "stdin": payload})
     finally:
         shutil.rmtree(sdir, ignore_errors=True)
+
+
+def units_of(fmt, out):
+    """{data file: everything a structured output says about it}"""
+    from . import c12
+    text = re.sub(rb'time="[^"]*"', b'time="T"', out).decode("utf-8", "replace")
+    if fmt in ("junit", "sarif"):
+        return c12.per_data_units(fmt, text)
+    try:
+        import yaml
+        reps = json.loads(text) if fmt == "json" else yaml.safe_load(text)
+        return {r["name"]: json.dumps(r, sort_keys=True) for r in reps}
+    except Exception:
+        return None
 
 
 def first_diff(a, b):
@@ -260,6 +305,16 @@ def replay(case, w):
             open(p, "w").write(content)
         os.makedirs(os.path.join(sdir, "cwd2"), exist_ok=True)
         argv = [a.replace("{S}", sdir) for a in case["argv"]]
+        if case.get("earlier_files"):
+            fmt = argv[-1]
+            code, out, err = run(argv, None, {}, sdir, False)
+            batch = units_of(fmt, out) or {}
+            alone = {}
+            for name in sorted(os.listdir(os.path.join(sdir, "d"))):
+                a1 = [x if x != os.path.join(sdir, "d") else os.path.join(sdir, "d", name) for x in argv]
+                alone.update(units_of(fmt, run(a1, None, {}, sdir, False)[1]) or {})
+            bad = [k for k in batch if k in alone and batch[k] != alone[k]]
+            return not bad, "%d data files whose unit differs between batch and stand-alone run" % len(bad)
         outs = set()
         for k in range(12):
             code, out, err = run(argv, None, ENVS[k % len(ENVS)], sdir, False)
@@ -275,11 +330,12 @@ def main(tier, seed):
     res = core.run_shards(shard, seed, tier, "C05")
     mo = res.extra.get("modes_with_output", set())
     floor = {"cases": (res.cases, 500), "modes_with_nonempty_output": (len([m for m in mo if not m.endswith(":EMPTY")]), 22),
-             "in_process_repetitions": (res.counts["in_process_repetitions"], 200)}
+             "in_process_repetitions": (res.counts["in_process_repetitions"], 200),
+             "earlier_file_units_compared": (res.counts["earlier_file_units_compared"], 150)}
     return core.finish("C05", tier, seed, res, t0,
                        rule="generated inputs (2 rules files with >=3 rules each, 3 CloudFormation-shaped documents, a test spec) x 22 command/output modes (4 of them function rules: parse_epoch on 12 timestamp spellings incl. zone-less and DST-gap ones, case mapping, conversions, join/regex_replace), each "
                             "run N=5 (quick) / 8 (thorough) times as a fresh process under rotated environments and cwd, plus 5 in-process repetitions of 3 "
-                            "payload modes; distinct = (mode, output size bucket, exit code)",
+                            "payload modes, plus per-data-file units of structured json/yaml/junit/sarif batches vs the same file validated alone (nothing evaluated earlier); distinct = (mode, output size bucket, exit code)",
                        floor=floor,
                        assumptions=["elapsed-time fields (JUnit time=, `time` of test reports) are masked", "ANSI colour codes are stripped from console output before comparing lines",
                                     "rules calling now() are not generated"])
